@@ -376,7 +376,26 @@ func PrePassShape(p *load.Prog, r *oblig.Report, rule string) *PrePass {
 		break
 	}
 	var list ssa.Value
+	var hdr *ssa.BasicBlock
+	var cleaned ssa.Value
+	var back interface{ Pos() token.Pos }
+	// the text assembled in a strings.Builder: one WriteString(cleaned line) per input line, lines separated by "\n"
 	if why == "" {
+		if bcall, ok := arg.(*ssa.Call); ok {
+			if callee := bcall.Common().StaticCallee(); callee != nil && callee.Name() == "String" && callee.Pkg != nil && callee.Pkg.Pkg.Path() == "strings" && len(bcall.Common().Args) == 1 {
+				lineWrite, bwhy := c.builderShape(bcall.Common().Args[0])
+				if bwhy != "" {
+					r.Bad(rule, "prepass:join", pos(input), "the lexer input is assembled in a strings.Builder, but "+bwhy+": line numbers of the cleaned text would not be those of the input")
+					return pp
+				}
+				r.OK(rule, "prepass:join", pos(input), "ssa", "NewInputStream(TrimRight(<builder: cleaned lines separated by \"\\n\">, \"\\n\"))")
+				cleaned, back = lineWrite.Common().Args[1], lineWrite
+				hdr = loopHeaderOfBlock(lineWrite.Block())
+				r.OK(rule, "prepass:one-line-out-per-line-in", pos(lineWrite), "ssa", "exactly one cleaned line and one separator are written on every path through the loop body; the loop is left only when the lines are exhausted")
+			}
+		}
+	}
+	if why == "" && cleaned == nil {
 		if call := stdCall(arg, "strings", "Join"); call != nil {
 			if js, _ := constStr(call.Common().Args[1]); js == "\n" {
 				list = c.res(call.Common().Args[0])
@@ -387,18 +406,19 @@ func PrePassShape(p *load.Prog, r *oblig.Report, rule string) *PrePass {
 			why = "the lexer input is " + c.canon(arg, 0) + ": only strings.TrimRight(strings.Join(lines, \"\\n\"), \"\\n\") keeps every line at its original line number"
 		}
 	}
-	if list == nil {
+	if list == nil && cleaned == nil {
 		r.Bad(rule, "prepass:join", pos(input), why)
 		return pp
 	}
-	r.OK(rule, "prepass:join", pos(input), "ssa", "NewInputStream(TrimRight(Join(cleanedLines, \"\\n\"), \"\\n\"))")
+	if cleaned == nil {
+		r.OK(rule, "prepass:join", pos(input), "ssa", "NewInputStream(TrimRight(Join(cleanedLines, \"\\n\"), \"\\n\"))")
+	}
 	// (3) the list is built line by line: either appended to in a loop — the header phi [fresh list, append(phi, one
 	// element)] — or allocated with one slot per line (make([]string, len(lines)), or the split result itself) and
 	// filled in place at the loop index
-	var hdr *ssa.BasicBlock
-	var cleaned ssa.Value
-	var back interface{ Pos() token.Pos }
-	if phi, ok := list.(*ssa.Phi); ok && len(phi.Edges) == 2 {
+	if cleaned != nil {
+		// builder form: decided above
+	} else if phi, ok := list.(*ssa.Phi); ok && len(phi.Edges) == 2 {
 		hdr = phi.Block()
 		var app *ssa.Call
 		for _, e := range phi.Edges {
@@ -637,6 +657,200 @@ func PrePassShape(p *load.Prog, r *oblig.Report, rule string) *PrePass {
 }
 
 // loopLeftOnlyFromHeader: no break/return inside the loop with this header.
+// loopHeaderOfBlock: the innermost loop header that dominates b and is reachable from b again (nil if b is in no loop).
+func loopHeaderOfBlock(b *ssa.BasicBlock) *ssa.BasicBlock {
+	for h := b; h != nil; h = h.Idom() {
+		for _, pred := range h.Preds {
+			if dominatedBy(h, pred) && (dominatedBy(h, b)) && reachesBlock(b, pred) {
+				return h
+			}
+		}
+	}
+	return nil
+}
+
+func reachesBlock(from, to *ssa.BasicBlock) bool {
+	seen := map[*ssa.BasicBlock]bool{}
+	work := []*ssa.BasicBlock{from}
+	for len(work) > 0 {
+		b := work[0]
+		work = work[1:]
+		if b == to {
+			return true
+		}
+		if seen[b] {
+			continue
+		}
+		seen[b] = true
+		work = append(work, b.Succs...)
+	}
+	return false
+}
+
+// builderShape judges a text assembled in a strings.Builder: inside one complete loop exactly one WriteString of a
+// computed string (the cleaned line) on every path, and one "\n" separator per line — written after the line on
+// every path, or before it on every iteration but the first. Returns the call that writes the line.
+func (c *ppCtx) builderShape(recv ssa.Value) (*ssa.Call, string) {
+	var lineWrites, sepWrites []*ssa.Call
+	for _, f := range c.funcs {
+		for _, b := range f.Blocks {
+			for _, in := range b.Instrs {
+				call, ok := in.(*ssa.Call)
+				if !ok {
+					continue
+				}
+				callee := call.Common().StaticCallee()
+				if callee == nil || callee.Pkg == nil || callee.Pkg.Pkg.Path() != "strings" || callee.Signature.Recv() == nil || len(call.Common().Args) == 0 || call.Common().Args[0] != recv {
+					continue
+				}
+				switch callee.Name() {
+				case "String", "Grow", "Len", "Cap":
+				case "WriteString":
+					if s, isC := constStr(call.Common().Args[1]); isC {
+						if s != "\n" {
+							return nil, fmt.Sprintf("the constant %q is written into it", s)
+						}
+						sepWrites = append(sepWrites, call)
+					} else {
+						lineWrites = append(lineWrites, call)
+					}
+				case "WriteByte", "WriteRune":
+					cst, isC := call.Common().Args[1].(*ssa.Const)
+					if !isC || cst.Int64() != '\n' {
+						return nil, "a character other than the line separator is written into it"
+					}
+					sepWrites = append(sepWrites, call)
+				default:
+					return nil, "it is also used through " + callee.Name()
+				}
+			}
+		}
+	}
+	// the builder must not be handed to anything else
+	if refs := recv.Referrers(); refs != nil {
+		for _, ref := range *refs {
+			switch x := ref.(type) {
+			case *ssa.Call:
+				if x.Common().Args[0] != recv || x.Common().StaticCallee() == nil || x.Common().StaticCallee().Pkg == nil || x.Common().StaticCallee().Pkg.Pkg.Path() != "strings" {
+					return nil, "the builder is passed to " + x.Common().Value.Name()
+				}
+			case *ssa.DebugRef:
+			case *ssa.Store:
+				if x.Addr != recv {
+					return nil, "the builder's address is stored"
+				}
+			default:
+				return nil, "the builder is used in a way that is not understood"
+			}
+		}
+	}
+	if len(lineWrites) != 1 || len(sepWrites) != 1 {
+		return nil, fmt.Sprintf("%d places write a computed string and %d write a separator (one of each is required)", len(lineWrites), len(sepWrites))
+	}
+	lw, sw := lineWrites[0], sepWrites[0]
+	hdr := loopHeaderOfBlock(lw.Block())
+	if hdr == nil || lw.Parent() != sw.Parent() {
+		return nil, "the cleaned line is not written inside a loop"
+	}
+	if !loopLeftOnlyFromHeader(hdr) {
+		return nil, "the loop can be left before the lines are exhausted"
+	}
+	uncond := func(b *ssa.BasicBlock) bool {
+		for _, pred := range hdr.Preds {
+			if dominatedBy(hdr, pred) && pred != hdr.Preds[0] && !dominatedBy(b, pred) {
+				return false
+			}
+		}
+		return true
+	}
+	if !uncond(lw.Block()) {
+		return nil, "the cleaned line is not written on every path through the loop body"
+	}
+	before := func(x, y *ssa.Call) bool {
+		if x.Block() == y.Block() {
+			for _, in := range x.Block().Instrs {
+				if in == ssa.Instruction(x) {
+					return true
+				}
+				if in == ssa.Instruction(y) {
+					return false
+				}
+			}
+		}
+		return dominatedBy(x.Block(), y.Block())
+	}
+	if uncond(sw.Block()) {
+		if !before(lw, sw) {
+			return nil, "the separator is written before the first line, so every line moves down by one"
+		}
+		return lw, ""
+	}
+	// separator before the line, on every iteration but the first: the only condition on it is index > 0 / index != 0
+	if loopHeaderOfBlock(sw.Block()) != hdr {
+		return nil, "the separator is not written in the loop of the lines"
+	}
+	conds := e5path.DominatingConds(sw.Block())
+	var inLoop []e5path.CondEdge
+	for _, ce := range conds {
+		if ce.If != nil && dominatedBy(hdr, ce.If.Block()) && ce.If.Block() != hdr {
+			inLoop = append(inLoop, ce)
+		}
+	}
+	if len(inLoop) != 1 {
+		return nil, "the separator is written under conditions that are not understood"
+	}
+	bo, ok := inLoop[0].Cond.(*ssa.BinOp)
+	if !ok {
+		return nil, "the separator is written under a condition that is not understood"
+	}
+	idx := bo.X
+	isIndex := false
+	if add, isAdd := idx.(*ssa.BinOp); isAdd && add.Op == token.ADD {
+		// range loops count from -1: the index of the iteration is phi+1
+		if ph, isPhi := add.X.(*ssa.Phi); isPhi && ph.Block() == hdr {
+			if one, isC := add.Y.(*ssa.Const); isC && one.Int64() == 1 {
+				if start, isC := ph.Edges[0].(*ssa.Const); isC && start.Int64() == -1 {
+					isIndex = true
+				}
+			}
+		}
+	} else if ph, isPhi := idx.(*ssa.Phi); isPhi && ph.Block() == hdr {
+		if start, isC := ph.Edges[0].(*ssa.Const); isC && start.Int64() == 0 {
+			isIndex = true
+		}
+	}
+	zero, isC := bo.Y.(*ssa.Const)
+	notFirst := isIndex && isC && zero.Int64() == 0 && ((bo.Op == token.GTR && inLoop[0].Branch) || (bo.Op == token.NEQ && inLoop[0].Branch) || (bo.Op == token.EQL && !inLoop[0].Branch) || (bo.Op == token.LEQ && !inLoop[0].Branch))
+	if !notFirst {
+		return nil, "the separator is not written exactly on every iteration but the first"
+	}
+	// within one iteration the separator cannot follow the line: its block is not reachable from the line's block
+	// without passing the loop header
+	after := false
+	if sw.Block() == lw.Block() {
+		after = !before(sw, lw)
+	} else {
+		seen := map[*ssa.BasicBlock]bool{hdr: true}
+		work := append([]*ssa.BasicBlock{}, lw.Block().Succs...)
+		for len(work) > 0 {
+			b := work[0]
+			work = work[1:]
+			if seen[b] {
+				continue
+			}
+			seen[b] = true
+			if b == sw.Block() {
+				after = true
+			}
+			work = append(work, b.Succs...)
+		}
+	}
+	if after {
+		return nil, "the separator that is skipped on the first iteration is written after the line"
+	}
+	return lw, ""
+}
+
 func loopLeftOnlyFromHeader(hdr *ssa.BasicBlock) bool {
 	if len(hdr.Succs) != 2 {
 		return false
